@@ -129,6 +129,22 @@ static void twice(int T, int n)
   mc_event("twice");
 }
 
+// parallel_for called while the caller's own pipe still holds an earlier schedule()d task: with a
+// 1-slot pipe (hook H2) the very first partition of the loop then finds the pipe full
+#include "rkcommon/tasking/schedule.h"
+static void sched_then_pfor(int T, int n)
+{
+  initTaskingSystem(T);
+  std::atomic<int> *ran = new std::atomic<int>(0);
+  schedule([ran]() { ran->fetch_add(1); });
+  Cells c(n);
+  parallel_for(n, [&](int i) { c.hit(i); });
+  c.check("parallel_for issued while the caller's pipe is occupied");
+  for (int k = 0; k < 4 && ran->load() == 0; k++)
+    mc_yield();
+  mc_eventf("sp" + c.who() + (ran->load() ? "r" : "-"));
+}
+
 static void entry()
 {
   // pf_T<t>_n<n> | pfu8_.. | nest_T<t>_<o>x<i> | each_T<t>_n<n> | blk_T<t>_n<n> | twice_T<t>_n<n>
@@ -153,6 +169,8 @@ static void entry()
     blocks<2>(T, (int)n);
   else if (s.compare(0, 6, "twice_") == 0)
     twice(T, (int)n);
+  else if (s.compare(0, 4, "spf_") == 0)
+    sched_then_pfor(T, (int)n);
 }
 
 struct Reg
@@ -184,6 +202,10 @@ struct Reg
     add("blk_T2_n5", 3, 4);
     add("blk_T2_n4", -1, 4);
     add("twice_T2_n3", 2, 4);
+    for (int n = 2; n <= 6; n++)
+      add("spf_T2_n" + std::to_string(n), 2, 3);
+    add("spf_T3_n6", 1, 2);
+    add("spf_T3_n7", 1, 2);
   }
 };
 static Reg reg;
